@@ -7,6 +7,7 @@ Sessions for the two small protocols:
 -/
 import Grevm.Model.WaitSlot
 import Grevm.Model.RunOnce
+import Grevm.Model.Guard
 import Grevm.Driver.Kernel
 
 namespace Grevm.Driver.Small
@@ -137,5 +138,15 @@ def replayOnce (k : Nat) (lines : List String) : String := Id.run do
           return s!"ok {k}"
   | [] => return "diverge 0 no call was elected: every call returned the once-error"
   | ws => return s!"diverge 0 {ws.length} calls were elected (model: exactly one CAS can succeed)"
+
+/-- `guard-table`: the full decision table of `Guard.effective`, one row per input combination:
+    `<enabled><prague><static><create2><petersburg><delegated>=<outcome code>`. -/
+def guardTable : String := Id.run do
+  let bs := [false, true]
+  let b2s (b : Bool) : String := if b then "1" else "0"
+  let mut out : Array String := #[]
+  for e in bs do for p in bs do for s in bs do for c in bs do for pb in bs do for d in bs do
+    out := out.push s!"{b2s e}{b2s p}{b2s s}{b2s c}{b2s pb}{b2s d}={(Guard.effective e p s c pb d).code}"
+  return " ".intercalate out.toList
 
 end Grevm.Driver.Small
